@@ -306,11 +306,12 @@ def main(argv=None):
         for ch, cp, pr in procs:
             so, se = pr.communicate(timeout=900)
             os.remove(cp)
-            line = next((l for l in so.splitlines() if l.startswith("XCHECK-JSON ")), None)
-            if line is None:
+            at = so.find("XCHECK-JSON ")
+            if at < 0:
                 errors.append("cross-check subprocess failed: " + (so + se)[-800:])
                 continue
-            for it, got in zip(ch, json.loads(line[len("XCHECK-JSON "):])):
+            got_list, _ = json.JSONDecoder().raw_decode(so[at + len("XCHECK-JSON "):])
+            for it, got in zip(ch, got_list):
                 if got["error"]:
                     xmismatch.append({"inputs": it["inputs"], "shape": it["shape"], "error": got["error"][-400:]})
                 elif got["obs"] != it["expect"]:
